@@ -25,6 +25,7 @@ pub const MENU: &[&str] = &[
     "referenced-blob-wrong-size",
     "unreferenced-blob-wrong-content",
     "second-unreferenced-blob",
+    "referenced-empty-blob-made-nonempty",
 ];
 
 fn first_ref<K: HKey>(m: &Model<K>) -> Option<[u8; 32]> {
@@ -60,6 +61,16 @@ pub fn plant<K: HKey>(im: &mut Image, m: &Model<K>, g: &str) -> bool {
         "unreferenced-blob-wrong-content" => {
             let d = b"orphan-three".to_vec();
             put(im, format!("cas/{}", ondisk::path_of_hash(&b3(&d))), b"something else".to_vec())
+        }
+        "referenced-empty-blob-made-nonempty" => {
+            if !m.map.values().any(|v| v.is_empty()) {
+                return false;
+            }
+            let p = format!("cas/{}", ondisk::path_of_hash(&b3(b"")));
+            if !im.files.contains_key(&p) {
+                return false;
+            }
+            im.files.insert(p, b"no longer empty".to_vec());
         }
         "referenced-blob-deleted" | "referenced-blob-corrupted-same-size" | "referenced-blob-wrong-size" => {
             let Some(h) = first_ref(m) else { return false };
@@ -170,7 +181,7 @@ pub fn check_planted<K: HKey>(base: &Image, m: &Model<K>, cfg: &Cfg, garbage: &[
             }
             drop(stats);
             // reads of intact keys still work
-            let damaged = garbage.iter().any(|g| g.starts_with("referenced-blob"));
+            let damaged = garbage.iter().any(|g| g.starts_with("referenced-"));
             if !damaged {
                 let mut f = Vec::new();
                 real::check_reads(&cas, m, universe, &mut f);
